@@ -70,6 +70,8 @@ pub enum Op {
     Unexport(usize),
     Name(usize, String),
     Remove(usize),
+    /// alias and export every export of an instantiation under its own name
+    ExportAll(usize),
     /// observe the graph in the middle of the history
     Snapshot,
 }
@@ -189,6 +191,39 @@ pub fn gen_graph_script(t: &mut Tape, max_ops: u64) -> (GraphScript, Vec<&'stati
     let mut define_iter = define_order.into_iter();
     let mut registered = 0usize;
     let mut instances = 0usize;
+    if family == 3 && t.chance(1, 2) {
+        // scripted churn: two packages with several exports each are registered, instantiated
+        // and fully exported; one of them is unregistered later in the history
+        let multi: Vec<usize> = (0..lib.len()).filter(|i| lib[*i].is_component && lib[*i].exports.len() >= 2).collect();
+        let a = multi[t.index(multi.len())];
+        let b = multi[t.index(multi.len())];
+        ops.push(Op::Register(a));
+        ops.push(Op::Register(b));
+        ops.push(Op::Instantiate(0));
+        ops.push(Op::Instantiate(1));
+        if t.chance(1, 2) {
+            ops.push(Op::ExportAll(0));
+            ops.push(Op::ExportAll(1));
+        } else {
+            ops.push(Op::ExportAll(1));
+            ops.push(Op::ExportAll(0));
+        }
+        registered += 2;
+        instances += 2;
+        let at_end = t.chance(1, 2);
+        if !at_end {
+            ops.push(Op::Unregister(t.index(2)));
+        }
+        probes.push("scripted_export_all_then_unregister");
+        if at_end {
+            // the unregister comes after the random part
+            let k = t.index(2);
+            let tail_marker = Op::Unregister(k);
+            // remember to append it below
+            ops.push(Op::Snapshot);
+            ops.push(tail_marker);
+        }
+    }
     for k in 0..nops {
         let pick = t.draw(24);
         let op = match (family, pick) {
@@ -222,9 +257,10 @@ pub fn gen_graph_script(t: &mut Tape, max_ops: u64) -> (GraphScript, Vec<&'stati
                 2 => Op::SetArg(t.index(64), t.index(8), t.index(64)),
                 _ => Op::UnsetArg(t.index(64), t.index(8), t.index(64)),
             },
-            (3, _) => match t.draw(3) {
+            (3, _) => match t.draw(5) {
                 0 => Op::Remove(t.index(64)),
                 1 if registered > 0 => Op::Unregister(t.index(64)),
+                2 | 3 if instances > 0 => Op::ExportAll(t.index(64)),
                 _ => Op::Snapshot,
             },
             (1, _) | (2, _) => {
@@ -654,6 +690,32 @@ pub fn observe_graph(script: &GraphScript) -> Obs {
                 } else {
                     it.graph.remove_node(nodes[*n % nodes.len()]);
                     "ok".into()
+                }
+            }
+            Op::ExportAll(i) => {
+                let insts = it.live_insts();
+                if insts.is_empty() {
+                    "skip".into()
+                } else {
+                    let inst = insts[*i % insts.len()];
+                    let names: Vec<String> = match it.graph[inst].item_kind() {
+                        ItemKind::Instance(id) => it.graph.types()[id].exports.keys().cloned().collect(),
+                        _ => Vec::new(),
+                    };
+                    let mut out = Vec::new();
+                    for name in names {
+                        match it.graph.alias_instance_export(inst, &name) {
+                            Ok(a) => {
+                                it.nodes.push(a);
+                                match it.graph.export(a, name.clone()) {
+                                    Ok(()) => out.push(format!("{name}=ok")),
+                                    Err(e) => out.push(format!("{name}=err:{}", err_chain(&e))),
+                                }
+                            }
+                            Err(e) => out.push(format!("{name}=alias-err:{}", err_chain(&e))),
+                        }
+                    }
+                    format!("exported[{}]", out.join(","))
                 }
             }
             Op::Snapshot => {
